@@ -35,7 +35,30 @@ from pyvc.ext_c11 import AnyListOf
 
 ENVIRONMENT = [
     'C06: asyncio call_soon scheduling (what runs between two scheduled callbacks, in which order deliveries of '
-    'different senders interleave) is environment; the contracts state what is scheduled, for whom, with which arguments',
+    'different senders interleave, that a scheduled callback runs exactly once) is environment; the contracts state what '
+    'is scheduled, for whom, with which arguments (the callback is observed by running it at scheduling time: the '
+    'callbacks of link.py read only their own captured locals)',
+    'C06: n-device configurations and schedules are outside contracts: every contract is per call on one controller / '
+    'one link; LocalLink.find_*_controller is proved for any number of controllers only in the direction "whoever is '
+    'returned owns such a connection" (the set of controllers is abstracted to arbitrary controllers), the direction '
+    '"None only if nobody does" and send_advertising_pdu are bounded stand-ins for 1..3 controllers',
+    'C06: hci.Address values are abstracted to their equality class (Opaque identity); lemma '
+    'address_eq_is_an_equivalence proves on the real class that __eq__ is the equality of (address_bytes, is_public), an '
+    'equivalence, and agrees with __hash__; the address_type octet read from such a value is unspecified (0..3)',
+    'C06: own addresses are unique on the link (no two controllers use the same own address on their connections) is a '
+    'precondition of the routing lemmas, not proved (it is a property of how devices are configured)',
+    'C06: Controller.link is never None after __init__ (representation invariant proved under C03) and every '
+    'controller.Connection is created with link=self.link: preconditions of on_hci_disconnect_command@le',
+    'C06: the look-ups by handle are used by on_hci_disconnect_command through callee views that hand the entry out as a '
+    'detached Connection object with the entry\'s columns (the handler only reads it)',
+    'C06: Controller.send_hci_packet (scheduling host.on_packet(bytes(packet))), the HCI event classes, '
+    'LegacyAdvertiser/AdvertisingSet timers, Controller.send_lmp_packet / on_lmp_packet dispatch, '
+    'on_hci_create_connection_command, on_hci_le_set_cig_parameters_command, role switch, SCO/CIS data paths, '
+    'Device.on_le_connection / on_classic_connection, pyee dispatch and listener (de)registration in connect_le / '
+    'connect_classic are environment',
+    'C06: hand-written models in pyvc/ext_c06.py (dict with object values as symbolic map incl. record store, values() '
+    'enumeration in arbitrary order, itertools.chain, set()/next()/any() over generator expressions, typing.cast) are '
+    'validated only by the CPython cross-check; next() returns SOME matching element (minimality / dict order not modelled)',
 ]
 
 ADDR = Opaque('addr')
